@@ -58,6 +58,13 @@ func genOsmomath(outDir string) {
 		"BigDec.Dec", "BigDec.DecWithPrecision", "BigDec.ChopPrecisionMut", "BigDec.DecRoundUp", "BigDec.CeilMut", "BigDec.Ceil",
 		"BigDec.TruncateInt", "BigDec.TruncateDec", "BigDec.RoundInt", "BigDec.PowerIntegerMut", "NewBigDecFromStr", "BigDec.String",
 		"BigDec.Unmarshal", "BigDec.Marshal",
+		// the integer side (Model/NumInt.lean): osmomath.BigInt, the BigDec <-> integer conversions, DivIntByU64ToBigDec
+		"BigInt.Add", "BigInt.Sub", "BigInt.Mul", "BigInt.Quo", "BigInt.Mod", "BigInt.Neg", "BigInt.Abs", "BigInt.ToDec",
+		"BigInt.Int64", "BigInt.Uint64", "BigInt.Marshal", "BigInt.Unmarshal", "BigInt.String", "MinBigInt", "MaxBigInt",
+		"NewBigIntFromBigInt", "NewBigIntFromString", "NewBigIntWithDecimal", "newIntegerFromString", "unmarshalText",
+		"NewBigDecWithPrec", "NewBigDecFromBigIntWithPrec", "NewBigDecFromBigIntMutWithPrec", "NewBigDecFromIntWithPrec",
+		"NewBigDecFromDecMulDec", "BigDecFromSDKInt", "BigDec.TruncateInt64", "BigDec.RoundInt64", "BigDec.IsInteger",
+		"DivIntByU64ToBigDec", "MinBigDec", "MaxBigDec",
 		"MonotonicSqrtMut", "MonotonicSqrtBigDecMut", "SigFigRound", "Exp2", "exp2ChebyshevRationalApprox", "BigDec.LogBase2",
 		"Pow", "PowApprox", "AbsDifferenceWithSign", "BinarySearch", "BinarySearchBigDec", "ErrTolerance.Compare", "ErrTolerance.CompareBigDec",
 	} {
